@@ -1,3 +1,3 @@
 #include "h.h"
-extern const prop_def prop_C01, prop_C02, prop_C03, prop_C04, prop_C05, prop_C06, prop_C07, prop_C08, prop_C09, prop_C10, prop_C11, prop_C12, prop_C13, prop_C14, prop_C15, prop_C16, prop_C17, prop_C19;
-const prop_def *const all_props[] = { &prop_C01, &prop_C02, &prop_C03, &prop_C04, &prop_C05, &prop_C06, &prop_C07, &prop_C08, &prop_C09, &prop_C10, &prop_C11, &prop_C12, &prop_C13, &prop_C14, &prop_C15, &prop_C16, &prop_C17, &prop_C19, NULL };
+extern const prop_def prop_C01, prop_C02, prop_C03, prop_C04, prop_C05, prop_C06, prop_C07, prop_C08, prop_C09, prop_C10, prop_C11, prop_C12, prop_C13, prop_C14, prop_C15, prop_C16, prop_C17, prop_C18, prop_C19;
+const prop_def *const all_props[] = { &prop_C01, &prop_C02, &prop_C03, &prop_C04, &prop_C05, &prop_C06, &prop_C07, &prop_C08, &prop_C09, &prop_C10, &prop_C11, &prop_C12, &prop_C13, &prop_C14, &prop_C15, &prop_C16, &prop_C17, &prop_C18, &prop_C19, NULL };
